@@ -905,28 +905,47 @@ class FileObj:
         vc = I.vc
         if fault(I, 'write'):
             # a failed write may already have pushed a prefix of (buffer + data) to the kernel
-            self._partial_flush(I, _cat(SBytes, self.buf, b), keep_rest=False)
+            self._partial_flush(I, None, keep_rest=False, parts=(self.buf, b))
             raise_py('OSError', 'ENOSPC', origin='write')
         # any prefix of (buffer + data) may be flushed by the buffering layer
-        self._partial_flush(I, _cat(SBytes, self.buf, b), keep_rest=True)
+        self._partial_flush(I, None, keep_rest=True, parts=(self.buf, b))
         return slen(b)
 
-    def _partial_flush(self, I, allbytes, keep_rest):
+    def _partial_flush(self, I, allbytes, keep_rest, parts=None):
+        """The buffering layer pushes an arbitrary prefix of (pending buffer ++ new data) to the kernel.
+        `parts` = (buffer, new data): the boundary is then case-split (inside the old buffer / inside the new data) so
+        that no extraction from a concatenation is ever built."""
         vc = I.vc
-        allb = SBytes.of(allbytes)
-        j = SInt.fresh('flushed')
-        vc.assume(b_and(j >= 0, j <= allb.length()))
         old = self.content()
-        pushed = allb.slice(0, j)
-        if 'a' in self.mode:
-            new = old + pushed
+        if parts is not None:
+            from .values import _parts
+            plist = [SBytes(p) for x in parts for p in _parts(SBytes.of(x).t)
+                     if not (z3.is_string_value(p) and p.as_string() == '')]
+            if not plist:
+                plist = [SBytes.of(b'')]
+            i = vc.choose(len(plist), label='flush:boundary_in_part') if len(plist) > 1 else 0
+            jj = SInt.fresh('flushed')
+            vc.assume(b_and(jj >= 0, jj <= plist[i].length()))
+            pushed = SBytes.of(b'')
+            for q in plist[:i]:
+                pushed = pushed + q
+            pushed = pushed + plist[i].slice(0, jj)
+            rest = plist[i].slice(jj, None)
+            for q in plist[i + 1:]:
+                rest = rest + q
+            j = pushed.length()
         else:
+            allb = SBytes.of(allbytes)
+            j = SInt.fresh('flushed')
+            vc.assume(b_and(j >= 0, j <= allb.length()))
+            pushed, rest = allb.slice(0, j), allb.slice(j, None)
+        if 'a' not in self.mode:
             # 'wb'/'xb' without O_APPEND: bytes land at the kernel cursor; only the at-EOF case is encoded
             I.require_internal('wb_write_at_eof', self.kpos == old.length())
-            new = old + pushed
+        new = old + pushed
         self.world.set_data(self.ino, new)
         self.kpos = ite(j > 0, new.length(), self.kpos)
-        self.buf = allb.slice(j, None) if keep_rest else b''
+        self.buf = rest if keep_rest else b''
         effect(I, 'file_write', file=self)
 
     def _flush(self, I, why):
@@ -1058,6 +1077,10 @@ class AbsStream:
                 vc.assume(b_and(m >= 0, m <= n, m <= rest.length()))
                 vc.assume(implies(b_and(n > 0, rest.length() > 0), m > 0))
                 r = rest.slice(0, m)
+                # len(rest[:m]) == m for 0 <= m <= len(rest) (theorem of substr): advance by m itself
+                self.pos = self.pos + m
+                self.reads += 1
+                return r
             else:
                 r = rest.slice(0, n)
         self.pos = self.pos + r.length()
@@ -1412,7 +1435,13 @@ def import_module(I, name):
         return ModuleObj('dataclasses', {'dataclass': Dummy('dataclass'), 'asdict': _fn(dc_asdict), 'fields': _fn(dc_fields)})
     if name in vc.extra_modules:
         return vc.extra_modules[name](I)
-    if name in ('typing', 'collections.abc', 'itertools', 'pathlib', 'io', 'json', 'shutil', 'logging', 'datetime',
+    from . import sqlmodel as SQL
+    sm = SQL.sqlalchemy_modules()
+    if name in sm:
+        return sm[name](I)
+    if name == 'io':
+        return ModuleObj('io', {'BytesIO': _fn(lambda I_, content=b'': AbsStream(content, 0, short_reads=False, name='BytesIO'))})
+    if name in ('typing', 'collections.abc', 'itertools', 'json', 'shutil', 'logging', 'datetime',
                 'random', 'string', 'subprocess', 'shlex', 'sqlite3', 'tempfile', 'sys', 're', 'shutil',
                 'sqlalchemy.engine', 'sqlalchemy.orm.session', 'sqlalchemy.sql', 'sqlalchemy.sql.expression',
                 'disk_objectstore', 'disk_objectstore.database', 'disk_objectstore.container', 'disk_objectstore.cli'):
